@@ -853,18 +853,27 @@ package dsl
 // compareTypes: two missing types are equal and a missing type never equals a present one; a scalar never becomes a
 // collection or the other way round (also when the scalar is spelled as a reference); a collection whose elements are
 // incompatible is incompatible; otherwise the verdict is the one of the function that knows the new collection kind.
+// A scalar generalized type with a single case is another spelling of that case's type (`int?*` is parsed as a vector
+// whose only case is `int?`, `!vector {items: [null, int]}` as a vector with the two cases): the verdict is the verdict
+// for the case's type, whichever side the wrapper is on (C13: the same model in two spellings compares as unchanged).
+//@ spec func isSingleCaseScalar(t Type) bool = typeof(t) == *GeneralizedType && t.(*GeneralizedType) != nil && t.(*GeneralizedType).Dimensionality == nil && len(t.(*GeneralizedType).Cases) == 1
+//@ spec func onlyCase(t Type) Type = t.(*GeneralizedType).Cases[0].Type
+//@ observe-args dsl.compareTypes
 //@ func compareTypes
+//@   property C06,C13
+//@   ensures a_single_case_on_the_new_side_is_its_type: old(isSingleCaseScalar(newType)) ==> calls(compareTypes) == 1 && result == lastResult(compareTypes) && lastArg(compareTypes, 0) == old(onlyCase(newType)) && lastArg(compareTypes, 1) == oldType
+//@   ensures a_single_case_on_the_old_side_is_its_type: !old(isSingleCaseScalar(newType)) && old(isSingleCaseScalar(oldType)) ==> calls(compareTypes) == 1 && result == lastResult(compareTypes) && lastArg(compareTypes, 0) == newType && lastArg(compareTypes, 1) == old(onlyCase(oldType))
 //@   property C06
 //@   ensures absent_equals_absent: newType == nil && oldType == nil ==> result == nil
-//@   ensures absent_never_equals_present: newType == nil && oldType != nil ==> typeof(result) == *TypeChangeIncompatible
-//@   ensures scalar_and_collection_are_incompatible: typeof(newType) == *GeneralizedType && typeof(oldType) == *GeneralizedType && newType.(*GeneralizedType) != nil && oldType.(*GeneralizedType) != nil && (old(newType.(*GeneralizedType).Dimensionality) == nil) != (old(oldType.(*GeneralizedType).Dimensionality) == nil) ==> typeof(result) == *TypeChangeIncompatible
+//@   ensures absent_never_equals_present: newType == nil && oldType != nil && !old(isSingleCaseScalar(oldType)) ==> typeof(result) == *TypeChangeIncompatible
+//@   ensures scalar_and_collection_are_incompatible: !old(isSingleCaseScalar(newType)) && !old(isSingleCaseScalar(oldType)) && typeof(newType) == *GeneralizedType && typeof(oldType) == *GeneralizedType && newType.(*GeneralizedType) != nil && oldType.(*GeneralizedType) != nil && (old(newType.(*GeneralizedType).Dimensionality) == nil) != (old(oldType.(*GeneralizedType).Dimensionality) == nil) ==> typeof(result) == *TypeChangeIncompatible
 //@   ensures reference_to_collection_is_incompatible: typeof(newType) == *SimpleType && newType.(*SimpleType) != nil && typeof(old(newType.(*SimpleType).ResolvedDefinition)) != *NamedType && typeof(oldType) == *GeneralizedType && oldType.(*GeneralizedType) != nil && old(oldType.(*GeneralizedType).Dimensionality) != nil ==> typeof(result) == *TypeChangeIncompatible
 //@   ensures collection_to_reference_is_incompatible: typeof(oldType) == *SimpleType && oldType.(*SimpleType) != nil && typeof(old(oldType.(*SimpleType).ResolvedDefinition)) != *NamedType && typeof(newType) == *GeneralizedType && newType.(*GeneralizedType) != nil && old(newType.(*GeneralizedType).Dimensionality) != nil ==> typeof(result) == *TypeChangeIncompatible
 //@   ensures vectors_are_judged_as_vectors: typeof(newType) == *GeneralizedType && typeof(oldType) == *GeneralizedType && newType.(*GeneralizedType) != nil && oldType.(*GeneralizedType) != nil && typeof(old(newType.(*GeneralizedType).Dimensionality)) == *Vector && old(oldType.(*GeneralizedType).Dimensionality) != nil && typeof(result) != *TypeChangeIncompatible ==> called(detectVectorChanges) && result == lastResult(detectVectorChanges)
 //@   ensures arrays_are_judged_as_arrays: typeof(newType) == *GeneralizedType && typeof(oldType) == *GeneralizedType && newType.(*GeneralizedType) != nil && oldType.(*GeneralizedType) != nil && typeof(old(newType.(*GeneralizedType).Dimensionality)) == *Array && old(oldType.(*GeneralizedType).Dimensionality) != nil && typeof(result) != *TypeChangeIncompatible ==> called(detectArrayChanges) && result == lastResult(detectArrayChanges)
 //@   ensures maps_are_judged_as_maps: typeof(newType) == *GeneralizedType && typeof(oldType) == *GeneralizedType && newType.(*GeneralizedType) != nil && oldType.(*GeneralizedType) != nil && typeof(old(newType.(*GeneralizedType).Dimensionality)) == *Map && old(oldType.(*GeneralizedType).Dimensionality) != nil && typeof(result) != *TypeChangeIncompatible ==> called(detectMapChanges) && result == lastResult(detectMapChanges)
 //@   ensures streams_are_judged_as_streams: typeof(newType) == *GeneralizedType && typeof(oldType) == *GeneralizedType && newType.(*GeneralizedType) != nil && oldType.(*GeneralizedType) != nil && typeof(old(newType.(*GeneralizedType).Dimensionality)) == *Stream && old(oldType.(*GeneralizedType).Dimensionality) != nil && typeof(result) != *TypeChangeIncompatible ==> called(detectStreamChanges) && result == lastResult(detectStreamChanges)
-//@   ensures two_scalars_are_judged_by_their_cases: typeof(newType) == *GeneralizedType && typeof(oldType) == *GeneralizedType && newType.(*GeneralizedType) != nil && oldType.(*GeneralizedType) != nil && old(newType.(*GeneralizedType).Dimensionality) == nil && old(oldType.(*GeneralizedType).Dimensionality) == nil ==> called(compareGeneralizedTypes) && result == lastResult(compareGeneralizedTypes)
+//@   ensures two_scalars_are_judged_by_their_cases: !old(isSingleCaseScalar(newType)) && !old(isSingleCaseScalar(oldType)) && typeof(newType) == *GeneralizedType && typeof(oldType) == *GeneralizedType && newType.(*GeneralizedType) != nil && oldType.(*GeneralizedType) != nil && old(newType.(*GeneralizedType).Dimensionality) == nil && old(oldType.(*GeneralizedType).Dimensionality) == nil ==> called(compareGeneralizedTypes) && result == lastResult(compareGeneralizedTypes)
 //@   ensures two_references_are_judged_as_references: typeof(newType) == *SimpleType && typeof(oldType) == *SimpleType ==> called(compareSimpleTypes) && result == lastResult(compareSimpleTypes)
 
 // Two references: a pair of definitions that the version pairing matched is judged through the recorded definition
